@@ -14,7 +14,7 @@ RULE = ("Cases: pairs (a, b) of generated curves/surfaces/volumes: b a deep copy
 ASSUMPTIONS = ["eq: changes are >= 1e-5 and 'equal' pairs are bit-identical, so the verdict is the same for every comparison tolerance <= 1e-6",
                "fine: the comparison tolerance is the documented 10**-precision ('number of decimal places', default 18); changes of >= 100 tolerances must be seen, nothing is asserted about changes below the tolerance"]
 
-CHANGES = ["coordinate", "weight", "weight-only-w", "knot", "degree", "size", "kind", "rationality", "rationality-dim", "none", "degree-only"]
+CHANGES = ["coordinate", "weight", "weight-only-w", "knot", "degree", "size", "kind", "rationality", "rationality-dim", "none", "degree-only", "moved", "scaled"]
 
 
 @st.composite
@@ -190,6 +190,28 @@ def check_eq(case, ctx):
         ctx.check((a == b) is False and (b == a) is False, "change-not-detected",
                   "shapes differing only in the degree of direction %d (%d vs %d) compare equal" % (k1, d["degree"][k1], d["degree"][k1] + 1))
         return
+    if case["change"] in ("moved", "scaled"):
+        # the documented default of the transformations: "inplace: if False, operation applied to a copy of the object"
+        from geomdl import operations
+        ctx.label("change:" + case["change"])
+        if case["change"] == "moved":
+            vec = [0.0] * d["dim"]
+            vec[case["coord"] % d["dim"]] = case["delta"]
+            b = operations.translate(a, vec)
+            desc = "translated by %r" % (vec,)
+        else:
+            if not any(x != 0.0 for q in d["P"] for x in q):
+                ctx.label("change-not-applicable")
+                return
+            mult = [2.0, 0.5, -1.0, 1.5][case["idx"] % 4]
+            b = operations.scale(a, mult)
+            desc = "scaled by %r" % mult
+        ctx.nt(True, "single-change")
+        ctx.check((a == c) is True and (c == a) is True and build.snapshot(a) == build.snapshot(c), "transform-changed-source",
+                  "after the shape was %s (no inplace) it no longer equals the deep copy taken before: sizes %r, before %r" % (desc, build.sizes_of(a), build.sizes_of(c)))
+        ctx.check((a == b) is False and (b == a) is False, "change-not-detected", "a shape and the same shape %s compare equal" % desc)
+        ctx.check((a != b) is True, "ne-not-negation", "!= is not the negation of == (%s)" % desc)
+        return
     v = _variant(case)
     ctx.label("change:" + case["change"])
     ctx.label("kind:" + d["kind"])
@@ -212,7 +234,17 @@ def check_eq(case, ctx):
         # the same change made on a deep copy through the documented setters; the source must not follow the copy
         b = copy.deepcopy(a)
         sfx = [""] if d["kind"] == "curve" else ["_u", "_v", "_w"][:len(d["degree"])]
-        if case["change"] == "coordinate":
+        if case["change"] == "coordinate" and d["kind"] == "surface" and case["idx"] % 4 == 3:
+            # the 2-D view is read, one entry replaced, and the same array assigned back
+            g2 = b.ctrlpts2d
+            new = build.homogeneous(dv["P"], dv["W"]) if d["rational"] else dv["P"]
+            nv_ = d["size"][1]
+            for j, q in enumerate(new):
+                if list(g2[j // nv_][j % nv_]) != list(q):
+                    g2[j // nv_][j % nv_] = list(q)
+            b.ctrlpts2d = g2
+            ctx.label("change-made-through-ctrlpts2d")
+        elif case["change"] == "coordinate":
             P = b.ctrlpts
             for j, q in enumerate(dv["P"]):
                 P[j] = list(q)
@@ -246,7 +278,7 @@ def check_eq(case, ctx):
 def _fine_cases(draw, tier):
     d = draw(gen.spline(max_p=3, max_extra=3, vol_max_p=2, vol_max_extra=2, unclamped="maybe", affine_range="maybe",
                         normalize="maybe"))
-    return {"defn": d, "what": draw(st.sampled_from(["knot", "knot", "coordinate", "weight"])), "idx": draw(st.integers(0, 10 ** 6)),
+    return {"defn": d, "what": draw(st.sampled_from(["knot", "knot", "coordinate", "weight", "translate"])), "idx": draw(st.integers(0, 10 ** 6)),
             "coord": draw(st.integers(0, 5)), "precision": draw(st.sampled_from([18, 18, 18, 16, 14, 12, 9, 6])),
             "factor": draw(st.sampled_from([100.0, 1000.0, 4096.0, 1048576.0])), "sign": draw(st.sampled_from([1, -1])),
             "route": draw(st.sampled_from(["copy", "rebuild"])), "scale_exp": draw(st.sampled_from([0, 0, 12, 20]))}
@@ -303,6 +335,20 @@ def check_fine(case, ctx):
         setattr(b, "knotvector" + sfx[k], nkv)
         desc = "knot %d of direction %d moved from %r to %r" % (j, k, kv[j], new)
         size = abs(new - kv[j])
+    elif case["what"] == "translate":
+        # a copy moved by a very small vector (operations.translate without inplace) is another shape
+        from geomdl import operations
+        c = case["coord"] % d["dim"]
+        vec = [0.0] * d["dim"]
+        vec[c] = case["sign"] * step
+        ws = list(a.weights) if d["rational"] else [1.0] * len(d["P"])
+        # change of the stored component, computed here from the unweighted points the shape reports
+        size = max(abs((q[c] + vec[c]) * w - s_[c]) for q, w, s_ in zip([list(q) for q in a.ctrlpts], ws, build.stored_points(a)))
+        if size < 200 * tol:
+            ctx.label("no-room-for-the-change")
+            return
+        b = operations.translate(b, vec)
+        desc = "translated by %r" % (vec,)
     else:
         pts = build.stored_points(a)
         i = idx % len(pts)
